@@ -32,11 +32,12 @@ FILL_B = [(0xB0, 1), (0xB1, 0), (0xB2, 0), (0xB3, 1)]
 
 
 def configs(tier):
-    if tier == "quick":
-        return [dict(dut="word", lanes=[0, 1, 2, 3], extras="s"), dict(dut="word", lanes=[0, 1, 2, 3], extras="e"),
-                dict(dut="word", lanes=[0, 1, 2, 3], extras="d"),
-                dict(dut="packet", markers=["shp"], lanes=[0, 1, 2, 3], extras="s"),
-                dict(dut="packet", markers=["slc"], lanes=[0, 1, 2, 3], extras="e"),
+    if tier == "quick":       # marker sequences at all four lanes; each look-alike kind at two lanes per configuration
+        return [dict(dut="word", lanes=[0, 1, 2, 3], extras="s", extra_lanes=[1, 3]),
+                dict(dut="word", lanes=[0, 1, 2, 3], extras="e", extra_lanes=[0, 2]),
+                dict(dut="word", lanes=[0, 1, 2, 3], extras="d", extra_lanes=[1, 2]),
+                dict(dut="packet", markers=["shp"], lanes=[0, 1, 2, 3], extras="s", extra_lanes=[0, 3]),
+                dict(dut="packet", markers=["slc"], lanes=[0, 1, 2, 3], extras="e", extra_lanes=[1, 2]),
                 dict(dut="packet", markers=["shp", "slc"], lanes=[0, 1, 2, 3], extras="")]
     return [dict(dut="word", lanes=[0, 1, 2, 3], extras="sde"),
             dict(dut="packet", markers=["shp"], lanes=[0, 1, 2, 3], extras="sde"),
@@ -49,7 +50,7 @@ class AlignerSpec(Spec):
 
     def __init__(self, cfg, tier):
         super().__init__(cfg, tier)
-        self.time_budget = 35 if tier == "quick" else 800
+        self.time_budget = 150 if tier == "quick" else 850       # generous: results must not depend on machine load
         if cfg["dut"] == "word":
             markers = [(COM, COM, COM, COM)]
         else:
@@ -64,7 +65,7 @@ class AlignerSpec(Spec):
             acts = [("A",), ("B",)]
             for k in kinds:
                 for mi in range(len(markers)):
-                    for j in lanes:
+                    for j in (lanes if k == "m" else cfg.get("extra_lanes", lanes)):
                         if j >= c: acts.append((k, mi, j))
             acts += [("x", 0), ("x", 1)]
             self._acts[c] = acts
